@@ -155,30 +155,40 @@ def run(ctx: Ctx):
 
     from . import util as _ut
 
-    tex = sm.func("transformer.py", "TreeToODE.expressions")
-    tv = _ut.value_of(ctx, tex)
-    key = tex.key("comments-in-block")
-    inner = _avt._unwrap_seq(tv)
-    while inner[0] == "call" and inner[1] in ("tuple", "list") and len(inner[2]) == 1:
-        inner = _avt._unwrap_seq(inner[2][0])
-    if _avt.has_unk(tv) or inner[0] != "comp":
-        ctx.undecided("R17.b", key, "what TreeToODE.expressions returns is not understood", tex.where())
-    else:
-        bv = ("bv", inner[1])
-        isc = ("call", "isinstance", (bv, ("sym", "atoms.Comment")), ())
-        passed = any(it[0] == "when" and it[1] == isc and it[2] == bv for it in inner[3]) or (isc in inner[4] and bv in inner[3])
-        parsed = [it for it in inner[3] if "find_assignments" in _avt.show(it)]
-        guarded = all(it[0] == "when" and it[1] == ("not", isc) for it in parsed)
-        ok = passed and bool(parsed) and guarded
-        to = _ut.nf(ctx, "transformer.py", "TreeToODE.ode")
-        # the Comment items are separated from the atoms - in ode() itself or in a module-level helper it uses
-        scope_nodes = [to.node]
-        used = {x.id for x in ast.walk(to.node) if isinstance(x, ast.Name)} | {x.attr for x in ast.walk(to.node) if isinstance(x, ast.Attribute)}
-        for hf in sm.funcs_in("transformer.py"):
-            if hf.name in used and hf.name.startswith("_") or (hf.name in used and "." not in hf.qualname and hf.name not in ("tree2parameter", "lark_list_to_parameters")):
-                scope_nodes.append(hf.node)
-        ok2 = any(isinstance(n, ast.If) and re.fullmatch(r"(not )?isinstance\(\w+, atoms\.Comment\)", norm(n.test)) for sn in scope_nodes for n in ast.walk(sn))
-        ctx.check(ok and ok2, "R17.b", key, "comments inside a block are passed on, not treated as atoms", f"the transformer does not pass Comment items of an expressions block on unchanged ({_avt.show(tv)[:120]}): they would be treated as assignments", tex.where())
+    handlers = [h for h in G.handlers(G.block_rule_name())]
+    texs = [sm.func("transformer.py", f"TreeToODE.{h}", required=False) for h in handlers]
+    if not any(texs):
+        ctx.broken(f"transformer.py: no TreeToODE method for the expression-block rule (looked for {handlers}; anchor vanished)")
+    for tex in [t for t in texs if t is not None]:
+        tv = _ut.value_of(ctx, tex)
+        key = tex.key("comments-in-block")
+        inner = _avt._unwrap_seq(tv)
+        while inner[0] == "call" and inner[1] in ("tuple", "list") and len(inner[2]) == 1:
+            inner = _avt._unwrap_seq(inner[2][0])
+        if _avt.has_unk(tv) or inner[0] != "comp":
+            ctx.undecided("R17.b", key, f"what {tex.qualname} returns is not understood", tex.where())
+            continue
+        if True:
+            bv = ("bv", inner[1])
+            isc = ("call", "isinstance", (bv, ("sym", "atoms.Comment")), ())
+            passed = any(it[0] == "when" and it[1] == isc and it[2] == bv for it in inner[3]) or (isc in inner[4] and bv in inner[3])
+            # every other item (what becomes an assignment) is produced only for items that are not comments
+            parsed = [it for it in inner[3] if not (it[0] == "when" and it[1] == isc and it[2] == bv) and it != bv]
+
+            def excludes_comments(c):
+                return c == ("not", isc) or (c[0] == "bool" and c[1] == "and" and ("not", isc) in c[2])
+
+            guarded = all((it[0] == "when" and excludes_comments(it[1])) or any(excludes_comments(c) for c in inner[4]) for it in parsed)
+            ok = passed and bool(parsed) and guarded
+            to = _ut.nf(ctx, "transformer.py", "TreeToODE.ode")
+            # the Comment items are separated from the atoms - in ode() itself or in a module-level helper it uses
+            scope_nodes = [to.node]
+            used = {x.id for x in ast.walk(to.node) if isinstance(x, ast.Name)} | {x.attr for x in ast.walk(to.node) if isinstance(x, ast.Attribute)}
+            for hf in sm.funcs_in("transformer.py"):
+                if hf.name in used and hf.name.startswith("_") or (hf.name in used and "." not in hf.qualname and hf.name not in ("tree2parameter", "lark_list_to_parameters")):
+                    scope_nodes.append(hf.node)
+            ok2 = any(isinstance(n, ast.If) and re.fullmatch(r"(not )?isinstance\(\w+, atoms\.Comment\)", norm(n.test)) for sn in scope_nodes for n in ast.walk(sn))
+            ctx.check(ok and ok2, "R17.b", key, "comments inside a block are passed on, not treated as atoms", f"the transformer does not pass Comment items of an expressions block on unchanged ({_avt.show(tv)[:120]}): they would be treated as assignments", tex.where())
     asg = G.shape("assignment")
     ctx.check(asg.replace(" ", "") == '?assignment:VARIABLE"="expression[' + cname + '][NEWLINE]', "R17.b", "src/gotranx/ode.lark::assignment", asg, f"assignment rule is `{asg}`", "src/gotranx/ode.lark")
 
@@ -231,17 +241,21 @@ def check_block_items(ctx: Ctx, rule: str, G, cname: str):
     """Inside a component-tagged block the grammar accepts assignments, comment lines and blank lines: a comment or blank
     line between two assignments must not end the block (the remaining assignments would silently move to the unnamed
     component - membership would depend on where the line stands)."""
-    exp = G.rule("expressions")
+    exp = G.rule(G.block_rule_name())
     alts = [a for a in exp["tree"].children]
-    tagged = [a for a in alts if G.render(a).startswith('"expressions" "("') or G.render(a).startswith('"component" "("')]
-    ctx.check(len(tagged) == 2, rule, "src/gotranx/ode.lark::expressions::tagged-alternatives", "expressions(...) and component(...) headers", f"expressions rule has {len(tagged)} component-tagged alternatives", "src/gotranx/ode.lark")
+    # a tagged alternative starts with one of the header keywords (or a group of them) and `(`
+    head = re.compile(r'^\(?\s*"(?:expressions|component)"(?:\s*\|\s*"(?:expressions|component)")*\s*\)?\s*"\("')
+    tagged = [a for a in alts if head.match(G.render(a))]
+    covered = {kw for a in tagged for kw in re.findall(r'"(expressions|component)"', head.match(G.render(a)).group(0))}
+    ctx.check(covered == {"expressions", "component"}, rule, "src/gotranx/ode.lark::expressions::tagged-alternatives", "expressions(...) and component(...) headers", f"the block rule has tagged alternatives for {sorted(covered)} only", "src/gotranx/ode.lark")
     for a in tagged:
         txt = G.render(a)
         body = G.expand_inlined(txt[txt.rfind('")"') + 3:].strip())
         while body.startswith("(") and body.endswith(")") and body.count("(") == body.count(")") and not body.endswith(")+"):
             body = body[1:-1].strip()
         okb = all(x in body for x in ("assignment", cname, "NEWLINE")) and body.endswith(")+")
-        ctx.check(okb, rule, f"src/gotranx/ode.lark::expressions::{txt.split()[0]}::block-items", f"block items: {body}", f"inside a `{txt.split()[0].strip(chr(34))}(...)` block only `{body}` is accepted: a comment line or a blank line between two assignments ends the block and the remaining assignments silently move to the unnamed component (or the model no longer loads)", "src/gotranx/ode.lark")
+        tag = re.findall(r'"(expressions|component)"', head.match(txt).group(0))[0]
+        ctx.check(okb, rule, f'src/gotranx/ode.lark::expressions::"{tag}"::block-items', f"block items: {body}", f"inside a `{tag}(...)` block only `{body}` is accepted: a comment line or a blank line between two assignments ends the block and the remaining assignments silently move to the unnamed component (or the model no longer loads)", "src/gotranx/ode.lark")
 
 
 def _comment_regex_verdict(rx: str) -> str:
